@@ -62,6 +62,8 @@ structure Entry where
   exist        : Bool := true    -- `IsExistSwamp`
   keys         : Keys := .ok
   kvNil        : Bool := false
+  keyBad       : Bool := false   -- some treasure key of the entry is empty or longer than 65535 bytes
+  fromNeg      : Bool := false   -- the paging offset `From` is negative
   incZero      : Bool := false
   opsEmpty     : Bool := false
   metaNil      : Bool := false
@@ -85,7 +87,7 @@ structure Shape where
 inductive Atom where
   | nameEmpty | nameInvalid | notExist | notExistChk
   | keysNil | keysLen0 | keysEmptyNN | key0Empty
-  | kvNil | incZero | opsEmpty | metaNil | patchesEmpty | capErr | bodyCapErr
+  | kvNil | keyInvalid | fromNeg | incZero | opsEmpty | metaNil | patchesEmpty | capErr | bodyCapErr
   | lockKeyEmpty | lockIdEmpty | telemetryOff
   deriving DecidableEq, Repr, Inhabited
 
@@ -119,6 +121,8 @@ inductive Step where
   | load                       -- `name.Load(name)` in the handler's goroutine
   | loadGo                     -- `name.Load(name)` in a goroutine the handler started (no recover there)
   | checkName (ex : ExistP) (m : FailMode)
+  | need (a : Atom) (tag : String)   -- the engine below misbehaves when `a` is true here (an *engine fact*, see extract/c26.go):
+                                     -- it panics on a negative offset, creates the swamp a reader names, loses a key it cannot store
   | body                       -- first engine call for this entry
   | unknown                    -- a statement the extractor did not recognise
   deriving Repr, Inhabited
@@ -174,6 +178,8 @@ def atomEval (cx : Ctx) (e : Entry) : Atom → Option Bool
                      | .firstEmpty => some true
                      | .ok => some false
   | .kvNil        => some e.kvNil
+  | .keyInvalid   => some e.keyBad
+  | .fromNeg      => some e.fromNeg
   | .incZero      => some e.incZero
   | .opsEmpty     => some e.opsEmpty
   | .metaNil      => some e.metaNil
@@ -203,6 +209,7 @@ inductive R where
   | reject (c : Code) (msg : String)
   | panic                  -- panic in the handler's goroutine
   | crash                  -- panic in a goroutine without recover: the process dies
+  | hazard (tag : String)  -- the engine is entered with an input it is known to mishandle
   deriving DecidableEq, Repr, Inhabited
 
 /-- `name.Load`: `splitPath[1]`, `splitPath[2]` without a length check -/
@@ -230,6 +237,10 @@ def stepBasic (cfg : Cfg) (cx : Ctx) (e : Entry) : Step → R × Bool
   | .load => (if loadPanics cfg e then .panic else .next, false)
   | .loadGo => (if loadPanics cfg e then .crash else .next, false)
   | .checkName _ _ => (.next, false)     -- not nested (the extractor never emits it there)
+  | .need a tag => match atomEval cx e a with
+    | none => (.panic, false)
+    | some false => (.next, false)
+    | some true => (.hazard tag, false)
   | .body => match e.engine with
     | .ok => (.next, true)
     | .err c => (.reject c "engine", true)
@@ -273,12 +284,14 @@ def loopE (cfg : Cfg) (cx : Ctx) (vigilDeferred : Bool) (steps : List Step) : Li
     | (.reject c m, b) => ⟨.reject c m, b.toNat, [], 0⟩
     | (.panic, b) => ⟨.panic, b.toNat, [], if b && !vigilDeferred then 1 else 0⟩
     | (.crash, b) => ⟨.crash, b.toNat, [], 0⟩
+    | (.hazard t, b) => ⟨.hazard t, b.toNat, [], 0⟩
 
 inductive Outcome where
   | grpcError (c : Code) (msg : String)
   | response
   | nilNil          -- `(nil, nil)`: no response and no error (for a stream: the handler returns nil mid-way)
   | panicEscapes    -- the panic leaves the handler / kills the process
+  | engineHazard (tag : String)   -- the request reaches the engine although the engine is known to mishandle it
   deriving DecidableEq, Repr, Inhabited
 
 def Outcome.defined : Outcome → Bool
@@ -307,6 +320,7 @@ def outcomeOf (h : Handler) : R → Outcome
   | .reject c m => .grpcError c m
   | .panic => if recovers h.defers then .nilNil else .panicEscapes
   | .crash => .panicEscapes
+  | .hazard t => .engineHazard t
 
 def isPanic : R → Bool
   | .panic | .crash => true
@@ -332,7 +346,7 @@ def reachesEngine (cfg : Cfg) (h : Handler) (sh : Shape) : Bool := (exec cfg h s
   flags    :=  subset of  s(tream) m(ulti) w(rites) v(igil deferred) n(il success) t(may stop early) u(nrecognised)
   defers   :=  word over  L U H E
   steps    :=  step (';' step)*            (may be empty)
-  step     :=  'g' act cond | 'load' | 'loadgo' | 'body' | 'unknown' | 'cn' exist mode
+  step     :=  'g' act cond | 'load' | 'loadgo' | 'need' atom tag | 'body' | 'unknown' | 'cn' exist mode
   act      :=  'early' | 'rej:' code ':' msgkey
   cond     :=  prefix notation over  or/and/not  and atom names
 -/
@@ -349,6 +363,7 @@ def atomOf : String → Option Atom
   | "nameEmpty" => some .nameEmpty | "nameInvalid" => some .nameInvalid | "notExist" => some .notExist
   | "notExistChk" => some .notExistChk | "keysNil" => some .keysNil | "keysLen0" => some .keysLen0
   | "keysEmptyNN" => some .keysEmptyNN | "key0Empty" => some .key0Empty | "kvNil" => some .kvNil
+  | "keyInvalid" => some .keyInvalid | "fromNeg" => some .fromNeg
   | "incZero" => some .incZero | "opsEmpty" => some .opsEmpty | "metaNil" => some .metaNil
   | "patchesEmpty" => some .patchesEmpty | "capErr" => some .capErr | "bodyCapErr" => some .bodyCapErr
   | "lockKeyEmpty" => some .lockKeyEmpty | "lockIdEmpty" => some .lockIdEmpty
@@ -387,6 +402,7 @@ def parseStep (s : String) : Step :=
   | ["load"] => .load
   | ["loadgo"] => .loadGo
   | ["body"] => .body
+  | ["need", a, tag] => (match atomOf a with | some atm => .need atm tag | none => .unknown)
   | ["cn", ex, m] =>
     let ex' : Option ExistP := if ex == "yes" then some .yes else if ex == "no" then some .no
                                else if ex == "single" then some .ifSingle else none
